@@ -217,3 +217,15 @@ Lemma good_witness_facts :
   p_stop 1 (cs_trace (run cc_auto good_witness)) = true ∧
   (20 < length (cs_trace (run cc_auto good_witness)))%nat.
 Proof. vm_compute. repeat split; try reflexivity; lia. Qed.
+
+(** an Unlock run in steps: the renewer sleeps when the call begins, the server applies the unlock, the reply stays in
+    flight for two renew intervals — no Renew is sent during the call, nothing panics *)
+Definition stepped_unlock_witness : list item :=
+  [ILock la wT 1; IAdvance second; IUnlockBegin 0; IUnlockSend 0; IAdvance (2 * wI); IUnlockEnd 0; IAdvance wI; IProbe].
+Lemma stepped_unlock_witness_facts :
+  wf_sched cc_auto stepped_unlock_witness = true ∧ excluded_stopdrop cc_auto stepped_unlock_witness = false ∧
+  excluded_renewmap cc_auto stepped_unlock_witness = false ∧
+  p_stop 0 (cs_trace (run cc_auto stepped_unlock_witness)) = true ∧
+  no_crash (cs_trace (run cc_auto stepped_unlock_witness)) = true ∧
+  length (cs_trace (run cc_auto stepped_unlock_witness)) = 5%nat.
+Proof. vm_compute. repeat split; reflexivity. Qed.
